@@ -223,7 +223,7 @@ fn record_rrsig(out: &str, seed: u64, n: u64) {
             let at = 1 + rng.below(owner.len() as u64) as usize;
             owner.insert(at.min(owner.len()), vec![b'*']);
             if rng.chance(1, 3) {
-                owner.insert(0, *rng.pick(&[vec![b'*'], vec![b's', b'u', b'b']]));
+                owner.insert(0, rng.pick(&[vec![b'*'], vec![b's', b'u', b'b']]).clone());
             }
         }
         if owner.iter().map(|l| l.len() + 1).sum::<usize>() > 200 {
